@@ -451,3 +451,73 @@ PROPS["C20"] = dict(
     assumptions=COMMON_ASSUME + ["gse_len consistent with the fields (the property's well-formedness premise)"],
     outside=["payloads longer than 8 bytes (the serialisers copy the payload with one copy_from_slice; offsets do not depend on its length beyond the header)"],
 )
+
+PROPS["C02"] = dict(
+    claim="Bounded model checking of every step of the fragmented transfer on the compiled code, composed by induction over the buffer schedule. Sender steps from an ARBITRARY "
+          "position: encap (first fragment) and encap_frag (continuation) write exactly the standard's layout of (kind, id, total length = 2 + written label + PDU, type, label, "
+          "payload = the next slice of the PDU, context CRC at the end), return a context advanced by exactly that slice with id/CRC unchanged, reject or progress — for ALL lengths "
+          "0..=65535 / buffers 0..=70000 — and never reject a buffer of 13 bytes or more; the context CRC is the calculator's value over the whole PDU. Receiver steps from an ARBITRARY "
+          "context: a first fragment opens a context holding its payload at offset 0 and its fields; an intermediate fragment appends at the current offset; an end fragment delivers "
+          "stored prefix ++ payload with the first fragment's label and protocol type exactly when total length and CRC agree; each consumes exactly its packet length.",
+    note="Trusted: Kani/CBMC/CaDiCaL; spec.rs::layout joins sender and receiver lemmas; RefMem (C17). The induction itself (invariant: receiver offset = sender position, stored prefix = PDU prefix) and the CRC equality across sides (same calculator, same arguments: c12 + rx C12 labels) are arguments over these lemmas. Byte equality per step is bounded by the byte tier; the literal first+end one-formula member did not finish within 24 GB and is an optional thorough member.",
+    harnesses=[H("c02::thirteen_bytes_always_accepted", bounds="pdu_len 0..=65535, buffer 13..=70000, any label / type / state / context", unwind=8, cost=20),
+               H("c06::encap_bytes", bounds=BYTE_TIER, unwind=8, cost=30, timeout=600),
+               H("c06::encap_frag_bytes", bounds=BYTE_TIER, cost=10, timeout=600),
+               H("c06::encap_lattice", bounds=LATTICE, unwind=8, cost=15),
+               H("c06::encap_frag_lattice", bounds="pdu_len 0..=65535, buffer_len 0..=70000, every ContextFrag", cost=10),
+               H("c11::first_fragment_lattice", bounds="pdu_len 0..=65535, buffer_len 0..=70000", unwind=8, cost=10),
+               H("c11::continuation_lattice", bounds="pdu_len 0..=65535, buffer_len 0..=70000, every ContextFrag", cost=5),
+               H("c12::sender_wiring", bounds="PDU <= 12, buffer <= 24; RecCrc records the call", unwind=8, cost=30),
+               H("c02::e2e_first_then_end", tier="thorough", required=False, bounds="one formula: encap -> decap -> encap_frag -> decap, DefaultCrc, PDU <= 4, 3-byte label", unwind=12,
+                 stubs=["read_gse_header -> first-or-end spec stub", STUB_WALKER], cost=900, timeout=2400, mem_gb=40),
+               T("c02::twin_thirteen", cost=5)]
+              + rx_members(RX_FIRST) + rx_members(RX_INTER) + rx_members(RX_END) + PREREQ_HDR,
+    functions=ENCAP_FNS + DECAP_FNS,
+    assumptions=RX_ASSUME + [ENC_STATE_INV],
+    prereq_note=["C14 header codec", "C17 memory contract"],
+    outside=RX_OUTSIDE + ["payload byte equality beyond the byte tier (length / offset arithmetic is covered for all sizes)"],
+)
+
+PROPS["C04"] = dict(
+    claim="Bounded model checking of the joint label step on the compiled code: real encap and real decap in ONE formula from an arbitrary sender state, receiver memory and ghost "
+          "'label of the preceding start/complete packet', constrained only by the joint invariant (sender remembers L => receiver remembers L; receiver memory is None or the preceding "
+          "label), for complete packets and for first fragments, any label incl. explicit re-use: every delivered / accepted packet carries the label the sender passed (the preceding "
+          "label for explicit re-use), explicit and broadcast labels are always delivered given storage, and the invariant is re-established; resets on both sides and configuration "
+          "calls preserve it. Failed encap calls change nothing (C09 members); the receiver alone resolves a marker only to the preceding label and clears or renews its memory on every "
+          "rejected start/complete packet (rx members, every receiver state); continuation packets leave the memory alone.",
+    note="Trusted: Kani/CBMC/CaDiCaL; header stub (C14); RefMem (C17). One inductive step covers call sequences of any length; PDU <= 4 / buffer <= 20 bound the packets, not the history. encap_ext shares check_label_re_use with encap (C15 step_encap_ext).",
+    harnesses=[H("c04::joint_step_complete", bounds="one formula encap -> decap, complete packets; PDU <= 4, buffer <= 20, any label / state", unwind=8, stubs=STUB_HDR + [STUB_WALKER], cost=40),
+               H("c04::joint_step_first", bounds="one formula encap -> decap, first fragments; PDU <= 4, buffer <= 20", unwind=8, stubs=STUB_HDR + [STUB_WALKER], cost=40),
+               H("c04::joint_step_reset_config", bounds="reset on both sides / disable / enable / enable-with-max(n)", unwind=8, cost=5),
+               T("c04::twin_joint_complete", cost=20, stubs=STUB_HDR),
+               H("c15::base_new", bounds="Encapsulator::new", unwind=8, cost=1),
+               H("c15::step_encap", bounds="sender step, any label / outcome", unwind=8, cost=15),
+               H("c15::step_encap_ext", bounds="sender step through encap_ext", unwind=10, cost=45, timeout=600),
+               H("c15::step_config", bounds="configuration calls", unwind=8, cost=2),
+               H("c09::encap_lattice", bounds=LATTICE + " (state unchanged on Err)", unwind=8, cost=10)]
+              + rx_members(RX_COMPLETE) + rx_members(RX_FIRST) + rx_members(["end_match", "inter_match", "end_none", "inter_none"], whole_family=False) + PREREQ_HDR,
+    functions=ENCAP_FNS + DECAP_FNS,
+    assumptions=RX_ASSUME + [ENC_STATE_INV, "packets reported as produced are handed to the receiver in order; label memories are reset together (the property's premises)"],
+    prereq_note=["C14", "C15 sender invariant", "C09 failure atomicity"],
+    outside=RX_OUTSIDE,
+)
+
+C16_Q = ["complete_s1_stale_empty", "complete_s1_stale_full", "complete_s1_clean_empty", "complete_s2_stale_both", "complete_s2_stale_full",
+         "first_s1_stale_empty", "first_s1_stale_full", "first_s1_clean_empty", "first_s2_stale_both_slot0", "first_s2_stale_both_slot1", "first_s2_stale_full_slot1",
+         "simple_complete_s1_stale_empty", "simple_complete_s1_stale_full", "simple_complete_s2_stale_both"]
+
+PROPS["C16"] = dict(
+    claim="Bounded model checking of recovery on the compiled code: from EVERY state of heap shapes that over-approximate what any history can leave behind (stale contexts on every slot, "
+          "with or without extensions, any remembered label, free list empty or full), after reset_last_label and one provision_storage — accepted, or refused with StorageOverflow "
+          "handing the buffer back — a valid complete packet with an explicit label is delivered with the right bytes and metadata, and a valid first fragment on ANY fragment id is "
+          "accepted and leaves exactly the fresh context (replacing a stale one); from that context the intermediate / end lemmas, which hold in every state, deliver the PDU.",
+    note="Trusted: Kani/CBMC/CaDiCaL; header stub (C14); 'after any sequence of decap calls' rests on C05 (every call returns), C08 (no call loses a buffer) and the state invariants; RefMem (C17) plus three members with the bundled memory in the loop.",
+    harnesses=[H(f"c16::{n}", bounds="arbitrary state of the named shape; reset + provision(6-byte buffer) + valid packet (payload <= 6, explicit label) + arbitrary tail", unwind=10,
+                 stubs=STUB_HDR + [STUB_WALKER] + (STUBS_DECAP[1:] if n.startswith("simple") else []), cost=30, mem_gb=4, covers="any", family=n.split("_")[0]) for n in C16_Q]
+              + [T("c16::twin_recover", cost=5, stubs=STUB_HDR)]
+              + rx_members(["inter_match", "end_match", "inter_match_full", "end_match_full"], whole_family=False) + PREREQ_HDR + c17_simple(False),
+    functions=DECAP_FNS,
+    assumptions=RX_ASSUME,
+    prereq_note=["C05 totality", "C08 conservation", "C17 memory contract"],
+    outside=RX_OUTSIDE,
+)
